@@ -12,7 +12,11 @@ from vlib import CACHE, ENV, ensure_harness, harness_hash, repo_hash
 
 TERM_PROP = {"map.collect_vec": "C01", "filter.collect_vec": "C01", "collect_vec": "C01",
              "flat_map.collect_x": "C07", "filter.count": "C04", "count": "C04", "reduce": "C03",
-             "find": "C02", "first": "C02"}
+             "find": "C02", "first": "C02",
+             # extras: tied extrema of items ordered by key only (sequential mode = std), defaults of a
+             # computation built on a worker thread, parameters across cloned()/copied()
+             "seq.max": "C09", "seq.min": "C09", "seq.min_by_key": "C09",
+             "params.default": "C12", "params.copied": "C12", "params.cloned": "C12", "params.kept": "C12"}
 
 
 def run_k7(tier, seed):
@@ -47,7 +51,7 @@ def run_k7(tier, seed):
         if line.startswith("seed="):
             f = dict(t.split("=") for t in line.split())
             res["conversions"] = int(f["conversions"])
-            res["total"] += int(f["conversions"]) * 9 * 6
+            res["total"] += int(f["conversions"]) * 9 * 6 + int(f.get("extras", "0"))
         elif line.startswith("MISMATCH"):
             term = [t for t in line.split() if t.startswith("term=")][0][5:]
             prop = TERM_PROP.get(term, "C01")
